@@ -42,6 +42,8 @@ def gen_loop_program(rr):
         prog['outside'].append({'name': 'out%d' % i, 'target': rr.choice(targets), 'method': kind})
     nrel = rr.choice([0, 0, 1, 2, 3])
     prog['reloads'] = sorted(rr.sample(range(0, prog['k'] + 1), min(nrel, prog['k'] + 1)))
+    # a second platform with blueprints at every level (the loop is then created and reloaded on that platform)
+    prog['platform_bp'] = rr.random() < 0.3
     # the producer of the loop's input may be replicated (the first body component then aggregates its replicas)
     prog['want_repl_input'] = rr.random() < 0.2
     # the condition component may read the loop-carried binding too (next to its same-iteration input)
@@ -172,8 +174,15 @@ def render_package(prog):
                                                      for lp in loops)
     for lp in loops:
         lp['repl_input'] = 2 if flag else None
-    main = ['variables:', '  default:', '    global:', '      targetLoops: 5', '      uv: default-uv', 'components:',
-            '- stage: 0', '  name: GenerateInput', '  command: {executable: echo, arguments: "0 %(uv)s"}']
+    main = []
+    if prog.get('platform_bp'):
+        stages = sorted(set(lp['import_stage'] + st for lp in loops for st in range(span_of(lp) + 1)))
+        main += ['platforms: [default, px]', 'blueprint:', '  default:',
+                 '    global: {resourceManager: {config: {walltime: 15.0}}}', '    stages:']
+        main += ['      %d: {resourceManager: {config: {walltime: 20.0}}}' % st for st in stages]
+        main += ['  px:', '    global: {resourceManager: {config: {walltime: 480.0}}}']
+    main += ['variables:', '  default:', '    global:', '      targetLoops: 5', '      uv: default-uv', 'components:',
+             '- stage: 0', '  name: GenerateInput', '  command: {executable: echo, arguments: "0 %(uv)s"}']
     if flag:
         main += ['  workflowAttributes: {replicate: 2}']
     if any(lp['const_binding'] for lp in loops):
@@ -560,6 +569,34 @@ def judge_reload(before, before_bytes, exp2, viol, where, cnt, ignore=(), tag=''
     cnt['probe.reloads_judged'] = cnt.get('probe.reloads_judged', 0) + 1
 
 
+def judge_uniform(exp, new, viol, where, steps):
+    """C07: an iteration instantiated from a reloaded description is configured like the iterations before it (the
+    description it came from is the same experiment): resource and workflow options of instance i equal those of i-1"""
+    wg = exp.experimentGraph
+    conc = wg.configuration.get_flowir_concrete(return_copy=False)
+    for ref in sorted(new):
+        st, name = ref.split('.', 1)
+        it, base = name.split('#', 1)
+        prev = '%s.%d#%s' % (st, int(it) - 1, base)
+        if int(it) < 1 or prev not in wg.graph.nodes:
+            continue
+        try:
+            a = conc.get_component_configuration((int(st[5:]), '%d#%s' % (int(it) - 1, base)), raw=False)
+            b = conc.get_component_configuration((int(st[5:]), name), raw=False)
+        except Exception:
+            continue
+        for sect in ('resourceManager', 'workflowAttributes', 'resourceRequest'):
+            if a.get(sect) != b.get(sect):
+                from checks.c15 import first_diff
+                d = first_diff(a.get(sect), b.get(sect))
+                if not any(v['sig'].startswith('reload:iteration-configured-differently') for v in viol):
+                    viol.append({'property': 'C07', 'sig': 'reload:iteration-configured-differently-from-the-one-before[%s]' % sect,
+                                 'detail': {'instance': ref, 'previous': prev, 'where': where,
+                                            'after_reload': any(x.startswith('reload') for x in steps),
+                                            'first_difference': json.loads(json.dumps(d, default=repr))}})
+                return
+
+
 def run_loop_history(prog, root, viol, cnt, fixpoint_cycles=1):
     import experiment.model.frontends.flowir as F
     vfiles = None
@@ -569,7 +606,8 @@ def run_loop_history(prog, root, viol, cnt, fixpoint_cycles=1):
         with open(vp, 'w') as f:
             yaml.safe_dump({'global': {'uv': 'from-user'}}, f)
         vfiles = [vp]
-    exp = new_instance(prog, root, variable_files=vfiles)
+    plat = 'px' if prog.get('platform_bp') else None
+    exp = new_instance(prog, root, variable_files=vfiles, platform=plat)
     path = exp.instanceDirectory.location
     prepare_iteration_dirs(exp, [n for n in exp.graph.nodes], iteration_of)
     loops = loops_of(prog)
@@ -591,7 +629,7 @@ def run_loop_history(prog, root, viol, cnt, fixpoint_cycles=1):
             bb = conf_bytes(exp)
             del exp
             try:
-                exp = reload_instance(path)
+                exp = reload_instance(path, platform=plat)
             except Exception as e:
                 # only the directory survived the crash and it cannot be loaded any more
                 for prop, sig in (('C07', 'reload:instance-does-not-load'), ('C05', 'instances:stored-iterations-do-not-load')):
@@ -604,7 +642,7 @@ def run_loop_history(prog, root, viol, cnt, fixpoint_cycles=1):
             for c in range(fixpoint_cycles - 1):
                 b2 = conf_bytes(exp)
                 s2 = snapshot_experiment(exp)
-                exp = reload_instance(path)
+                exp = reload_instance(path, platform=plat)
                 judge_reload(s2, b2, exp, viol, 'reload cycle %d at step %d' % (c + 2, pos), cnt)
             judge_loop(exp, prog, list(ks), viol, 'after reload at step %d' % pos, cnt)
             steps.append('reload@%d' % pos)
@@ -635,6 +673,7 @@ def run_loop_history(prog, root, viol, cnt, fixpoint_cycles=1):
             exp.getStage(cid.stageIndex).add_job(job)
         prepare_iteration_dirs(exp, new, iteration_of)
         judge_loop(exp, prog, list(ks), viol, 'after iteration %s' % ks, cnt)
+        judge_uniform(exp, new, viol, 'after iteration %s' % ks, steps)
         steps.append('iter%d.%d' % (li, ks[li]))
         if any(v['property'] == 'C05' for v in viol) and len(viol) >= 3:
             break
